@@ -106,7 +106,9 @@ void World::exec_op(const Op &op) {
 		c.rdcap = (size_t)op.a.getd("rdcap", 0); c.wcap = (size_t)op.a.getd("wcap", 0); c.space = (int64_t)op.a.getd("space", -1);
 		const JV *pol = op.a.get("policy"); if (pol) c.policy = *pol;
 		c.no_expect = op.a.getb("noexpect"); c.faulty = op.a.getb("faulty");
-		if (const JV *cf = op.a.get("cfgfail")) { c.cfg_fail_at = (int)cf->getd("n", 1); c.cfg_fail_errno = (int)cf->getd("errno", ENOBUFS); c.no_expect = true; c.policy.put("maydrop", JV::boolean(true)); }
+		// (the connection is only written off when the fault really fires: a local socket makes fewer configuration calls than a TCP one)
+		if (op.a.has("epolladd")) c.epoll_add_errno = (int)op.a.getd("epolladd", ENOSPC);
+		if (const JV *cf = op.a.get("cfgfail")) { c.cfg_fail_at = (int)cf->getd("n", 1); c.cfg_fail_errno = (int)cf->getd("errno", ENOBUFS); }
 		std::string tr = c.transport == "ws" ? "ws" : c.transport == "uds" ? "uds" : "raw";
 		KFd *l = find_listener(tr, c.origin_ip);
 		clients.push_back(c); plan2client[op.c] = c.idx;
